@@ -803,6 +803,17 @@ def c13e(prog, rep):
     ]
     extra = sorted(set(rows) - set(want))
     missing = sorted(set(want) - set(rows))
+    # a search that moved into a nested helper of the reviewed function (same routine, same constant needles; the text searched is then a
+    # parameter): the same search, re-anchored
+    isconst = lambda a: a.isdigit() or a.startswith("b'")
+    for m in list(missing):
+        for e in list(extra):
+            if e[0].startswith(m[0] + "::") and e[1] == m[1] and len(e[2]) == len(m[2]) and [a for a in e[2] if isconst(a)] == [a for a in m[2] if isconst(a)] \
+                    and len([r for r in rows if r[0].startswith(m[0]) and r[1] == m[1]]) == len([w for w in want if w[0].startswith(m[0]) and w[1] == m[1]]):
+                rep.note("C13.e: the %s search of %s is now in its nested helper %s" % (m[1], m[0], e[0]))
+                missing.remove(m)
+                extra.remove(e)
+                break
     rep.check(not extra and not missing, R, "terminator-searches", "the lexer's byte searches changed: new/changed %s, gone %s (each decides where a token ends: needle set and the text searched are reviewed)" % (extra, missing),
               instance={"searches": ["%s: %s%s" % r for r in sorted(rows)]})
     fb = prog.body(LX + "find_block_comment_end")
